@@ -83,7 +83,10 @@ impl Monitor for C05 {
             }
         }
         let key_choices: Vec<&str> = ["k", "g", "i", "r", "b", "s", "ts", "iv"].into_iter().filter(|c| t.schema.ty_of(c).is_some() && u.schema.ty_of(c).is_some()).collect();
-        let key = *rng.pick(&key_choices);
+        let mut key = *rng.pick(&key_choices);
+        // whole REAL keys of magnitude 2^63 and beyond: distinct keys that a detour through 64-bit integers merges
+        let huge = key_choices.contains(&"r") && rng.chance(1, 8);
+        if huge && rng.chance(3, 4) { key = "r"; }
         // a column whose name differs from the join column only in letter case, defined BEFORE it and holding other values
         // (JSON flavour: the extra field needs no change of the line pattern)
         for tab in [&mut t, &mut u] {
@@ -95,8 +98,8 @@ impl Monitor for C05 {
                 tab.spec.cols.insert(at, ColSpec { name: twin.clone(), ty: ty.clone(), src: Src::Json(vec![JsonStep::Field(twin)]), modifier: if matches!(ty, Ty::Ts | Ty::Iv) { Modifier::Convert } else { Modifier::None } });
             }
         }
-        let dct = DataCfg { keys: 1 + rng.below(3), ..DataCfg::random(rng, t.schema.cols.len(), false) };
-        let dcu = DataCfg { keys: 1 + rng.below(3), ..DataCfg::random(rng, u.schema.cols.len(), false) };
+        let dct = DataCfg { keys: 1 + rng.below(3), huge_reals: huge, ..DataCfg::random(rng, t.schema.cols.len(), false) };
+        let dcu = DataCfg { keys: 1 + rng.below(3), huge_reals: huge, ..DataCfg::random(rng, u.schema.cols.len(), false) };
         let nt = rng.below(13); let nu = rng.below(13);
         let mut tl = std_lines(rng, &t, nt, &dct);
         let mut ul = std_lines(rng, &u, nu, &dcu);
